@@ -26,6 +26,9 @@ type interp struct {
 	path    *Path
 
 	steps     int64
+	boundSteps int64 // zz.Bounded: exceeding it is a violation (0 = off)
+	boundDepth int
+	boundMsg   string
 	maxSteps  int64
 	depth     int
 	maxDepth  int
@@ -188,6 +191,9 @@ func (fr *frame) runDefers() {
 
 func (in *interp) step(fr *frame) {
 	in.steps++
+	if in.boundSteps > 0 && in.steps > in.boundSteps {
+		in.boundViolated(fmt.Sprintf("more than the declared bound of interpreted instructions (bound ends at step %d)", in.boundSteps))
+	}
 	if in.steps > in.maxSteps {
 		panic(limitHit{fmt.Sprintf("step limit %d", in.maxSteps)})
 	}
@@ -720,6 +726,9 @@ func (in *interp) callSSA(caller *frame, callpos token.Pos, fn *ssa.Function, ar
 	}
 	fr.depth = in.depth
 	in.depth++
+	if in.boundSteps > 0 && in.depth > in.boundDepth {
+		in.boundViolated(fmt.Sprintf("call nesting deeper than the declared bound %d", in.boundDepth))
+	}
 	if in.depth > in.maxDepth {
 		panic(limitHit{fmt.Sprintf("call depth %d exceeded", in.maxDepth)})
 	}
@@ -1083,4 +1092,18 @@ func (in *interp) symStore(sp *symPtr, v value) {
 		c := in.tp.Eq(sp.idx.T, in.tp.BV(uint64(i), w))
 		sp.cells[i] = in.mk(k, in.tp.Ite(c, vt, in.termOf(sp.cells[i])))
 	}
+}
+
+// boundViolated ends the path with a violation: the code under zz.Bounded exceeded its
+// declared resource bound on a feasible path.
+func (in *interp) boundViolated(how string) {
+	msg := in.boundMsg + " [" + how + "]"
+	in.boundSteps = 0
+	p := in.path
+	if p.check(in.tp.Bool(true)) == "sat" {
+		if m, err := p.model(); err == nil {
+			in.recordWitness("bound", msg, m)
+		}
+	}
+	panic(pathEnd{"resource bound exceeded"})
 }
